@@ -16,6 +16,21 @@ CHECKS = {
    text="Every path of every board-crate function that probes a move is explored with the outstanding-make count and the kind of return; an Err/? return with a move still made is reported with its witness path. make_uci's +1-on-Ok contract, make_all_uci's roll-back loop and the position-replay caller's error arm are checked structurally. Decides the no-side-effect clause for every input at once; does not decide that acceptance equals legality.",
    note="Trusted: rustc MIR + callee resolution, the extractor, the exploration. Assumes make/unmake are exact inverses (C03) and that &self helpers do not mutate (enforced by the borrow checker).",
    ref="4/C13"),
+ "C07": dict(
+   technique="static analysis: path counting of best_move emissions on the MIR CFG, who-may-call over the resolved call graph, context-sensitive panic-site inventory of the search thread with constant folding / mask-shift bounds",
+   text="Decides two clauses for every input and schedule at once: exactly one UciTx::best_move call on every returning path of Search::go (and nobody else calls it), and no unreviewed bounds-check / unwrap / index / explicit panic / division site reachable in the search thread (each site folds away, is bounded, or carries a reviewed guard argument, some with machine-checked preconditions). Does not decide legality or non-nullness of the move nor any timing behaviour.",
+   note="Trusted: rustc MIR and callee resolution, the extractor, the reviewed guard arguments in tables/panic_sites.json, the list of extern APIs that panic by contract (tables/panic_api.json); extern callees not listed are assumed total (printed in the evidence). Arithmetic-overflow asserts of the search are inventoried but not judged.",
+   ref="4/C07"),
+ "C12": dict(
+   technique="static analysis: panic-site inventory over the resolved call graph of the FEN reader/writer with constant folding and reviewed guard arguments; reader/writer table agreement on compiler-evaluated constants",
+   text="Decides 'no input string makes the FEN parser panic' up to reviewed guard arguments tied to the FEN grammar: every Assert terminator and every panicking API call reachable from Fen::from_str, Bitboard::from(&Fen) and Fen::from(&Bitboard) is auto-discharged or reviewed by exact key; the clock-field sites require a machine-checked u32 guard in Fen::from_str. Structural agreement of reader and writer tables. Does not decide exact decoding of every FEN.",
+   note="Trusted: rustc MIR, extractor, reviewed guard arguments (tables/panic_sites.json), panic API list; regex crate assumed to implement the pattern as written.",
+   ref="4/C12"),
+ "C15": dict(
+   technique="static analysis: panic-site inventory over the resolved call graph of the UCI command parser and move parser; keyword/token set agreement on evaluated constants and match arms",
+   text="Decides 'no input line makes the parser panic' up to reviewed guard arguments: every overflow/bounds assert, unwrap, index, RefCell borrow reachable from CommandParser::{new,parse}, UciMove::from_str/fmt is auto-discharged or reviewed by exact key. Structural clauses of faithful parsing (dispatch set, GO_TOKENS = arms, duplicate detection). Does not decide numeric value faithfulness.",
+   note="Trusted: rustc MIR, extractor, reviewed guard arguments, panic API list; both profiles differ only in the arithmetic asserts, which are judged in the dev/test profile (the one in which they exist).",
+   ref="4/C15"),
 }
 NOT_APPLICABLE = {
  "C17": "PGN tokenisation under arbitrary read fragmentation is decided by runtime bytes; the only structural clause in reach (buffer read only behind ensure_buffer) is too weak to stand for the property (DESIGN.md section 1).",
